@@ -40,8 +40,21 @@ def spell(name, kind, off):
     return '%s[%d]' % (base, off)
 
 
-def script_of(prog):
-    return '\n'.join('%s = %s' % (spell(l[0], 'v', l[1]), ' + '.join(spell(*m) for m in rhs)) for l, rhs in prog)
+SPELLINGS = [None, 'space-before-bracket', 'comment-with-terms', 'comment-lines']
+
+
+def script_of(prog, spelling=None):
+    """The same program in another spelling: a blank before a right-hand-side index bracket; trailing comments / comment
+    lines that contain terms, brackets, quotes and further hashes (none of which is part of the script)."""
+    def rhs_spell(m):
+        t = spell(*m)
+        return t.replace('[', ' [', 1) if spelling == 'space-before-bracket' else t
+    lines = ['%s = %s' % (spell(l[0], 'v', l[1]), ' + '.join(rhs_spell(m) for m in rhs)) for l, rhs in prog]
+    if spelling == 'comment-with-terms':
+        lines = [ln + "  # was W9[-7] + <zz9> + {qq9}[+7], see ticket #7 - last year's" for ln in lines]
+    elif spelling == 'comment-lines':
+        lines = ['## heading with Q9[-9] and a second # hash'] + lines + ["# trailing note: {pp9} isn't used, V9[+8] neither #"]
+    return '\n'.join(lines)
 
 
 def norm(off):
@@ -95,7 +108,7 @@ def allowed_len(explicit, derived, minimum):
 @robust(1, 'exception')
 def run_case(case):
     prog = [((l[0], l[1]), [tuple(m) for m in rhs]) for l, rhs in case['prog']]
-    script = script_of(prog)
+    script = script_of(prog, case.get('spelling'))
     ref = reference(prog)
     out = []
     try:
@@ -226,18 +239,21 @@ def run_block(block, tier, seed):
     for i, (prog, full) in enumerate(program_space(tier)):
         if i % block['nb'] != block['b']:
             continue
-        case = {'prog': [[list(l), [list(m) for m in rhs]] for l, rhs in prog], 'full_options': full, 'script': script_of(prog)}
-        acc.evaluations += 1
-        try:
-            with guard(20):
-                v, outcome = run_case(case)
-        except CaseTimeout:
-            acc.violation('timeout', case, 'termination', 'timeout')
-            continue
-        acc.outcome(outcome)
-        acc.nontrivial += 1
-        for key, exp, obs, what in v:
-            acc.violation(key, case, exp, obs, what)
+        for spelling in (SPELLINGS if (len(prog) == 1 and len(prog[0][1]) <= 2) else SPELLINGS[:1]):
+            case = {'prog': [[list(l), [list(m) for m in rhs]] for l, rhs in prog], 'full_options': full and spelling is None, 'script': script_of(prog, spelling)}
+            if spelling:
+                case['spelling'] = spelling
+            acc.evaluations += 1
+            try:
+                with guard(20):
+                    v, outcome = run_case(case)
+            except CaseTimeout:
+                acc.violation('timeout', case, 'termination', 'timeout')
+                continue
+            acc.outcome(outcome)
+            acc.nontrivial += 1
+            for key, exp, obs, what in v:
+                acc.violation(key + (':' + spelling if spelling else ''), case, exp, obs, what)
         if i == block['b']:
             acc.sample({'script': case['script']}, limit=1)
     return acc
